@@ -197,13 +197,79 @@ fn query_cache_key_collision() -> bool {
 }
 
 
+// F-C01-a (real crash point): the process is KILLED at the first unlink of a compacted segment (observed through
+// inotify on the data directory); the next strict start-up must succeed with all four documents.
+//   pinned tree: RECOVERY FAILED: strict recovery mode: required WAL segment missing
+fn crash_at_first_unlink() -> bool {
+    use std::os::unix::ffi::OsStrExt;
+    let dir = tempfile::tempdir().unwrap();
+    let cpath = std::ffi::CString::new(dir.path().as_os_str().as_bytes()).unwrap();
+    let fd = unsafe { libc::inotify_init1(0) };
+    assert!(fd >= 0);
+    let wd = unsafe { libc::inotify_add_watch(fd, cpath.as_ptr(), libc::IN_DELETE) };
+    assert!(wd >= 0);
+    let exe = std::env::current_exe().unwrap();
+    let mut child = std::process::Command::new(exe).arg("F-C01-a-child").arg(dir.path()).spawn().unwrap();
+    // block until the first delete of a wal segment, then kill -9
+    let mut buf = [0u8; 4096];
+    let mut killed = false;
+    let fdc = fd;
+    let pid = child.id() as i32;
+    let watcher = std::thread::spawn(move || {
+        loop {
+            let n = unsafe { libc::read(fdc, buf.as_mut_ptr() as *mut libc::c_void, buf.len()) };
+            if n <= 0 { return false; }
+            let mut off = 0usize;
+            while off + std::mem::size_of::<libc::inotify_event>() <= n as usize {
+                let ev = unsafe { &*(buf.as_ptr().add(off) as *const libc::inotify_event) };
+                let name_bytes = &buf[off + std::mem::size_of::<libc::inotify_event>()..off + std::mem::size_of::<libc::inotify_event>() + ev.len as usize];
+                let name = String::from_utf8_lossy(name_bytes).trim_end_matches('\0').to_string();
+                if name.starts_with("wal_") && name.ends_with(".wal") {
+                    unsafe { libc::kill(pid, libc::SIGKILL); }
+                    println!("  killed child at unlink of {name}");
+                    return true;
+                }
+                off += std::mem::size_of::<libc::inotify_event>() + ev.len as usize;
+            }
+        }
+    });
+    let status = child.wait().unwrap();
+    if status.success() {
+        // child finished without any unlink being observed: unblock the watcher
+        std::fs::write(dir.path().join("wal_unblock.wal"), b"x").unwrap();
+        std::fs::remove_file(dir.path().join("wal_unblock.wal")).unwrap();
+    }
+    killed = watcher.join().unwrap() && !status.success();
+    unsafe { libc::close(fd); }
+    println!("  child killed mid-compaction: {killed}");
+    if !killed {
+        println!("  (no crash point reached: nothing to decide)");
+        return false;
+    }
+    match HnswBackend::recover(2, DistanceMetric::Euclidean, dir.path(), 100, FsyncPolicy::Always, 0, 64, MetricsCollector::new()) {
+        Ok(r) => { println!("  recovered len={}", r.len()); r.len() != 4 }
+        Err(e) => { println!("  RECOVERY FAILED: {e:#}"); true }
+    }
+}
+fn crash_child(dir: &std::path::Path) {
+    let b = HnswBackend::with_persistence(2, DistanceMetric::Euclidean, vec![], vec![], 100, dir, FsyncPolicy::Always, 0, 64).unwrap();
+    for i in 1..=4u64 {
+        b.insert(i, vec![i as f32, 1.0], HashMap::new()).unwrap();
+    }
+    b.create_snapshot().unwrap();
+}
+
 fn main() {
     let which = std::env::args().nth(1).unwrap_or_else(|| "all".to_string());
+    if which == "F-C01-a-child" {
+        crash_child(std::path::Path::new(&std::env::args().nth(2).unwrap()));
+        return;
+    }
     let scenarios: Vec<(&str, Box<dyn Fn() -> bool>)> = vec![
         ("F-C03-a.nan", Box::new(|| failed_overwrite(DistanceMetric::Euclidean, vec![1.0, 0.0], vec![f32::NAN, 0.0]))),
         ("F-C03-a.overflow", Box::new(|| failed_overwrite(DistanceMetric::Cosine, vec![1.0, 0.0], vec![3e19, 3e19]))),
         ("F-C03-a.inf", Box::new(|| failed_overwrite(DistanceMetric::Cosine, vec![1.0, 0.0], vec![f32::INFINITY, 0.0]))),
-        ("F-C01-a", Box::new(crash_window)),
+        ("F-C01-a", Box::new(crash_at_first_unlink)),
         ("F-C12-a", Box::new(prune_parent)),
         ("F-C11-a", Box::new(filtered_delete_stale_hot)),
         ("F-C13-a", Box::new(strict_fallback_loss)),
